@@ -36,8 +36,10 @@ def base_name(node):
 
 
 class FunctionEffects(ast.NodeVisitor):
-    def __init__(self, fn, qualname, path):
+    def __init__(self, fn, qualname, path, module_mutables=()):
         self.fn, self.qualname, self.path = fn, qualname, path
+        self.module_mutables = set(module_mutables)     # module-level names bound to list / dict / set objects
+        self.modalias = {}                               # local name -> module-level mutable object it is another name for
         a = fn.args
         self.params = {x.arg for x in a.args + a.kwonlyargs + a.posonlyargs} | ({a.vararg.arg} if a.vararg else set()) | ({a.kwarg.arg} if a.kwarg else set())
         self.param_order = [x.arg for x in a.posonlyargs + a.args]
@@ -114,7 +116,24 @@ class FunctionEffects(ast.NodeVisitor):
             self.target(node.target, node.value, node)
             self.visit(node.value)
 
+    def _module_object(self, value):
+        """the module-level mutable object an expression denotes, if any (a bare name, not shadowed by a local / parameter)"""
+        if isinstance(value, ast.Name):
+            if value.id in self.modalias:
+                return self.modalias[value.id]
+            if value.id in self.module_mutables and value.id not in self.params and not _is_local(self.fn, value.id):
+                return value.id
+        return None
+
     def target(self, t, value, node):
+        if isinstance(t, ast.Name):
+            mo = self._module_object(value) if value is not None else None
+            if mo is not None:
+                self.modalias[t.id] = mo
+            else:
+                self.modalias.pop(t.id, None)
+        elif isinstance(t, (ast.Attribute, ast.Subscript)) and isinstance(base := t.value, ast.Name) and base.id in self.modalias:
+            self.flag(node, "store-to-module-state", ast.unparse(t) + f" = ...   ({base.id} is the module-level {self.modalias[base.id]})")
         if isinstance(value, ast.IfExp):
             # either branch may be taken: analyse the operand-reaching one last so that aliasing wins over freshness
             branches = sorted([value.body, value.orelse], key=lambda b: 0 if self.is_fresh_expr(b) else 1)
@@ -179,6 +198,8 @@ class FunctionEffects(ast.NodeVisitor):
     def visit_AugAssign(self, node):
         t = node.target
         if isinstance(t, ast.Name):
+            if t.id in self.modalias:
+                self.flag(node, "augmented-assignment-on-module-state", ast.unparse(node) + f"   ({t.id} is the module-level {self.modalias[t.id]})")
             if t.id in self.params or t.id in self.alias:
                 self.flag(node, "augmented-assignment-on-operand", ast.unparse(node))
         else:
@@ -225,6 +246,8 @@ class FunctionEffects(ast.NodeVisitor):
         if cname:
             self.calls.append((cname, [self._own(a) for a in node.args if not isinstance(a, ast.Starred)] if not any(isinstance(a, ast.Starred) for a in node.args) else None,
                                {k.arg: self._own(k.value) for k in node.keywords if k.arg}))
+        if isinstance(f, ast.Attribute) and f.attr in MUTATORS and isinstance(f.value, ast.Name) and f.value.id in self.modalias:
+            self.flag(node, "mutator-call-on-module-state", ast.unparse(node)[:100] + f"   ({f.value.id} is the module-level {self.modalias[f.value.id]})")
         if isinstance(f, ast.Attribute):
             if f.attr in MUTATORS and self.param_reach(f.value):
                 self.flag(node, "mutator-call-on-operand", ast.unparse(node)[:120], root=base_name(f.value))
@@ -298,13 +321,23 @@ def analyse_tree(src_root):
             rel = os.path.relpath(path, os.path.dirname(src_root))
             tree = ast.parse(open(path).read())
             nfiles += 1
+            mutables = set()
+            for st in tree.body:
+                if isinstance(st, (ast.Assign, ast.AnnAssign)) and st.value is not None:
+                    v = st.value
+                    is_mut = isinstance(v, (ast.List, ast.Dict, ast.Set, ast.ListComp, ast.DictComp, ast.SetComp)) or \
+                        (isinstance(v, ast.Call) and isinstance(v.func, ast.Name) and v.func.id in ("list", "dict", "set", "defaultdict", "OrderedDict", "bytearray"))
+                    if is_mut:
+                        for tg in (st.targets if isinstance(st, ast.Assign) else [st.target]):
+                            if isinstance(tg, ast.Name):
+                                mutables.add(tg.id)
             stack = [(tree, "")]
             while stack:
                 node, prefix = stack.pop()
                 for ch in ast.iter_child_nodes(node):
                     if isinstance(ch, (ast.FunctionDef, ast.AsyncFunctionDef)):
                         q = prefix + ch.name
-                        fe = FunctionEffects(ch, q, rel)
+                        fe = FunctionEffects(ch, q, rel, mutables)
                         fe.visit(ch)
                         sites += fe.sites
                         for c in fe.calls:
